@@ -245,7 +245,7 @@ def _objectives(name):
 @check("C01")
 def c01(tier, seed, only):
     chk = Check("C01", tier, seed)
-    runs = solvefam.plan(tier, seed, models=only)
+    runs = solvefam.plan(tier, seed, models=only, underdetermined=True)
     d = solvefam.Deferred(chk).add(["C01"], runs)
     # results of optimisation and of the multiprocessing workers are assignments too
     for name in OPT_MODELS if tier != "quick" else OPT_MODELS[:8]:
@@ -380,6 +380,8 @@ def _lemma_cfgs(tier, algs=None):
     for cfg in catalogue.prop_catalogue(tier):
         if algs and cfg["alg"] not in algs:
             continue
+        if cfg.get("only") or cfg.get("pin"):
+            continue  # configurations reserved for some of the single-call properties
         out.append(cfg)
     return out
 
